@@ -50,6 +50,8 @@ PROPS["C03"] = dict(canon="serve", timeout=1200,
 PROPS["C04"] = dict(canon="serve", timeout=1200,
     rule="client streams made of RESP values of every type, command names/arguments with CRLF + forged +OK/:1/$-1 frames, null/nested/empty command arrays, "
          "with and without a command handler x handler results of every message type incl. nil message, nil array, nil element, errors with CRLF, message+error; "
+         "plus concurrent cases (conc4): 2..6 connections on the example store with 1..16 KiB array replies (LRANGE, MGET, ZRANGE WITHSCORES), each read in 5..20-byte pieces with scheduling "
+         "points in between over unbuffered pipes, every connection's bytes compared exactly with the model's replies; "
          "oracle: an independent strict RESP2 reader must split everything written into complete canonical frames; non-trivial = every case",
     trusted_base=SERVE_TB, assumptions=SERVE_AS)
 PROPS["C05"] = dict(canon="serve", timeout=1200,
@@ -60,11 +62,15 @@ PROPS["C05"] = dict(canon="serve", timeout=1200,
 PROPS["C07"] = dict(canon="serve", timeout=1200,
     rule="hostile streams: empty/null/nested command arrays, non-array values, mutated valid requests (C06 mutators), every command with boundary arguments, "
          "disconnect at arbitrary points x wild handler results (nil message, nil array, nil elements, odd-length arrays, errors); "
-         "oracle: no panic escapes the connection loop, the loop returns, the registry is empty afterwards",
+         "plus stalled-writer witness cases (stallw): 1..3 clients that pipeline requests and never read, over unbuffered pipes, on the double and on the example store, while witness "
+         "connections opened afterwards must get exact replies; "
+         "oracle: no panic escapes the connection loop, the loop returns, the registry is empty afterwards, witnesses are served",
     trusted_base=SERVE_TB, assumptions=SERVE_AS + ["process-level effects (OS limits, fatal runtime errors that are not panics) are outside the model"])
 PROPS["C10"] = dict(canon="serve", timeout=1200,
     rule="systematic enumeration over the independent grammar: each required position omitted, each value position replaced by a null bulk, each numeric position replaced by "
-         "non-numeric/overflowing/fractional tokens, each pair list cut to a dangling half, every SET exclusivity conflict and non-positive expiry; each followed by PING; "
+         "non-numeric/overflowing/fractional/hex/underscore tokens, each pair list cut to a dangling half, every SET exclusivity conflict and non-positive expiry; option-bearing commands "
+         "(EXPIRE, SCAN, SET, LPOP, ZADD, ZRANGE*, ZREVRANGE*) are drawn 8x per round so that every optional clause (LIMIT o c, COUNT n, MATCH p, EX n ...) occurs and its values are mutated too, "
+         "LIMIT cut after its offset; each followed by PING; "
          "oracle: zero handler calls, an error reply, then +PONG; non-trivial = every case",
     trusted_base=SERVE_TB, assumptions=SERVE_AS)
 PROPS["C11"] = dict(canon="serve", timeout=1200,
@@ -73,7 +79,8 @@ PROPS["C11"] = dict(canon="serve", timeout=1200,
     trusted_base=SERVE_TB, assumptions=SERVE_AS)
 PROPS["C20"] = dict(canon="serve", timeout=1200,
     rule="pipelines of C03 (valid, ill-formed, unknown, QUIT, composed commands) with a recording tracer, authorized and unauthorized, end of stream at the end, at a request boundary "
-         "and at a sampled inner offset; oracle: every span started once and finished once, children inside parents, one root per request; non-trivial = every case",
+         "and at a sampled inner offset; connections whose k-th and later writes fail (wfail=k) and streams that end with the socket closed or reset instead of EOF (rerr=closed|reset, at "
+         "request boundaries); oracle: every span started once and finished once, children inside parents, one root per request; non-trivial = every case",
     trusted_base=SERVE_TB, assumptions=SERVE_AS + ["runs that end in a recovered panic leave spans open; they are C07's subject"])
 
 SYS_TB = [KERNEL, TIE, HOOK + ", one goroutine per connection, requests released one at a time in the scripted global order",
@@ -86,14 +93,17 @@ PROPS["C08"] = dict(canon="sys", timeout=1200,
          "oracle: no handler call and no non-error reply on a connection before its own exact AUTH; exact AUTH answered +OK; non-trivial = every case",
     trusted_base=SYS_TB, assumptions=["no TLS certificate rule configured (that is C09)", "requests are atomic with respect to connection-scoped state (only the connection's own goroutine touches it)"])
 PROPS["C13"] = dict(canon="sys", timeout=1200,
-    rule="all interleavings of two connections x 4x4 programs of SELECT/data commands (incl. failing SELECT and QUIT), random histories over 2..8 connections mixing SELECT, AUTH (right/wrong) "
-         "and data commands, with and without a password; oracle: every handler call sees the database of its own connection's last successful SELECT, its own authorization, its own user data; "
+    rule="all interleavings of two connections x 4x4 programs of SELECT/data commands (incl. failing SELECT and QUIT), random histories over 2..8 connections mixing SELECT, AUTH (right/wrong, one- and two-argument form) "
+         "and data commands, with and without a password; oracle: every handler call sees the database of its own connection's last successful SELECT, its own authorization, its own user data, "
+         "and the outcome of a one-argument AUTH depends on its own argument only; "
          "non-trivial = every case",
     trusted_base=SYS_TB, assumptions=["concurrent (unserialised) execution is exercised by C14/C16's workloads; here requests are released one at a time"])
 
 PROPS["C17"] = dict(
     rule="complete enumeration: every pattern of length <=4 (quick) / <=5 (thorough) over {a,b,*,?,.,+,(,|,$} against every key of length <=3 / <=4 over the same alphabet "
          "(one case = one pattern, result = bitmap over all keys); random longer patterns over every regexp metacharacter with keys derived from the pattern; "
+         "keyscan cases: the bundled example store populated with every key of length 1..2 (3) over the alphabet, KEYS p and SCAN 0 MATCH p COUNT 100000 for every pattern of length <=3 (4), "
+         "both compared with the glob semantics and with each other; "
          "oracle: glob.Compile never fails and MatchString agrees with the harness' own recursive glob matcher; non-trivial = every case",
     trusted_base=[KERNEL, TIE, "Go regexp for three token shapes between ^ and $ with (?s): QuoteMeta(c) matches exactly c, '.' one character, '.*' any sequence",
                   "characters are bytes in the model; the tie uses ASCII"],
@@ -102,7 +112,8 @@ PROPS["C17"] = dict(
 
 PROPS["C18"] = dict(canon="xserve", model_is_oracle=True, timeout=1200,
     rule="single-client programs against the bundled example server through the hook: per data type (strings, hashes, lists, sets, sorted sets) all programs of length <=2 (quick) / <=3 (thorough) "
-         "over a menu of 15..38 commands on a small key/member/value/score pool (collisions, re-adds, renames onto existing and identical keys, pops beyond the end, LIMIT, exclusive bounds), "
+         "over a menu of 22..46 commands on a small key/member/value/score pool (collisions, re-adds, renames onto existing and identical keys, renamed containers used further / drained / renamed back, "
+         "empty values, keys touched only by derived commands, pops beyond the end, LIMIT, one- and two-sided exclusive bounds), "
          "plus random programs of 1..40 commands, one type or all mixed; replies compared with the Lean reference store (unordered replies as sorted arrays); non-trivial = every case",
     trusted_base=[KERNEL, TIE, HOOK, "scores restricted to an exactly representable pool (multiples of 0.5, +-inf as bounds); strconv formatting of those",
                   "sync.Map and Go map semantics of the example store"],
@@ -111,7 +122,9 @@ PROPS["C18"] = dict(canon="xserve", model_is_oracle=True, timeout=1200,
 PROPS["C12"] = dict(canon="serve", prep=True, model_is_oracle=False, timeout=1200,
     rule="programs run through the real framework with a handler double that replays the results of the Lean reference store (computed per program by `modeldriver prep`): "
          "GETRANGE/SUBSTR for lengths 0..6 x start,end in -9..9 and ZREVRANGE for sizes 0..5 x start,stop in -7..7 with and without scores (both enumerated exhaustively, with the reply Redis "
-         "defines computed independently in Go as the oracle), counters at the 64-bit boundaries, and random programs of 1..12 commands over every framework-implemented command; "
+         "defines computed independently in Go as the oracle), ZREVRANGEBYSCORE over 10x10 bounds (open, closed, infinite) x WITHSCORES x 7 LIMIT forms on a set with a score tie (Redis oracle), "
+         "counters at the 64-bit boundaries, random programs of 1..12 commands over every framework-implemented command, string programs of 1..10 commands checked reply by reply against an "
+         "independent sequential specification - once with the double (seqspec) and once with a real stateful Go string store behind the framework (sserve); "
          "non-trivial = every case",
     trusted_base=SERVE_TB + ["the Lean reference store (Model/RefStore) supplies the primitive operations' results; scores from the exactly representable pool"],
     assumptions=SERVE_AS + ["integers are what strconv.Atoi accepts (a leading + is tolerated)", "PING with an empty-string argument answers +PONG (handler interface cannot tell it from no argument): outside the claimed space"])
@@ -121,10 +134,12 @@ LIFE_TB = [KERNEL, TIE, "a real server on loopback ports (chosen by bind probe),
            "OS socket semantics; goroutines are counted by stack frames of the framework"]
 PROPS["C15"] = dict(timeout=1800,
     rule="every sequence of Start/Stop/Restart of length <=4 (quick; <=3 with TLS) / <=6 (thorough), with after each call: observation (registry, ports bindable?, framework goroutines), a client on every enabled port, "
-         "a client that connects and idles across the next call; plus random histories of clients connecting, idling, disconnecting (close, QUIT, RST) between the calls; non-trivial = every case",
-    trusted_base=LIFE_TB, assumptions=["the interleavings of lifecycle calls with exiting accept loops / connection goroutines are forced through the verif schedule points (thorough) and abstracted by the Lifecycle transition system"])
+         "a client that connects and idles across the next call; plus random histories of clients connecting, idling, disconnecting (close, QUIT, RST, unread) between the calls; "
+         "forced schedules (hook H2): 3 scenarios x every single and every pair of 8 schedule points (quick) / every subset (thorough) delayed by 25 ms; stop storms (Stop while 4 clients keep "
+         "connecting, 3 s watchdog) 40 / 400 rounds; non-trivial = every case",
+    trusted_base=LIFE_TB, assumptions=["the interleavings of lifecycle calls with exiting accept loops / connection goroutines are forced by delaying goroutines at the verif schedule points (not enumerated by a blocking controller) and covered for every schedule by the Lifecycle transition system"])
 PROPS["C19"] = dict(timeout=1800,
-    rule="every ending mode (client close, RST, QUIT, malformed frame, half request then close) at pipeline positions 0..2 on the plain and the TLS port; every TLS handshake fault (plain text, garbage, abort after ClientHello, no / self-signed / "
+    rule="every ending mode (client close, TCP reset - also underneath TLS -, QUIT, malformed frame, half request then close, pipelined requests left unread) at pipeline positions 0..2 on the plain and the TLS port; every TLS handshake fault (plain text, garbage, abort after ClientHello, no / self-signed / "
          "foreign / expired certificate, rejected name), a stalled handshake ended by the client and by Stop; Stop with several connections in flight; churn of 150 (quick) / 10^4 (thorough) connect-disconnect cycles mixing all "
          "endings with up to 32 in flight; oracle: registry, goroutines and listening sockets at their baseline after every ending; non-trivial = every case",
     trusted_base=LIFE_TB, assumptions=["descriptor tables and TCP reset semantics are the kernel's; the model claims the control flow reaches the releases, the tie observes the effect"])
